@@ -246,6 +246,7 @@ func runC19(c *core.Ctx, o Options) {
 	}
 	checkPoolRange(c, "H2", "Outgoing", "Incoming")
 	checkPoolGrowOnly(c, "H2")
+	checkEventPoolOrder(c, "H2")
 
 	// ---- H3 store first
 	s := newSess(c)
@@ -372,7 +373,8 @@ func runC19(c *core.Ctx, o Options) {
 		})
 		c.Check(okDrain && callsServe && len(loops(drain)) == 1, "H4", "DefaultHandler.processRemainingIncoming", "takes messages from the queue until it is empty and dispatches each", drain.Pos(), "for { select { case msg := <-incoming: serve(msg); default: return } }", "the drain does not empty the incoming queue through serve")
 	}
-	c.RuleMin = map[string]int{"H1": 6, "H2": 7, "H3": 3, "H4": 3}
+	c.Explanation += " H2 also covers utils.EventHandlerPool: every update of its map appends one subscriber at the end of the event's list (directly or through a helper that returns an ordered copy plus one), and Trigger walks front to back and stops at the first false."
+	c.RuleMin = map[string]int{"H1": 6, "H2": 10, "H3": 3, "H4": 3}
 	c.MinObl = 20
 }
 
@@ -392,7 +394,7 @@ func checkPoolRange(c *core.Ctx, rule string, dirs ...string) {
 		}
 		c.Check(rc.Ascending && strings.HasSuffix(an.Render(rc.Over), ".handlersByMsgType(msgType)"), rule, name, "visits handlersByMsgType(msgType) in ascending index order", rc.Call.Pos(),
 			"range over the snapshot of the requested type", "Range does not walk the requested type's handlers front to back")
-		c.Check(rc.TrueNext == rc.Head && rc.Head != nil, rule, name, "continues with the next handler after a true result", rc.Call.Pos(), "true → next iteration", "a true result does not continue with the next handler")
+		c.Check(flowsStraightTo(rc.TrueNext, rc.Head), rule, name, "continues with the next handler after a true result", rc.Call.Pos(), "true → next iteration", "a true result does not continue with the next handler")
 		if dir == "Outgoing" {
 			// every way on from a refusal returns false without another handler having been called (a way back to the loop head
 			// would be a path that does not return)
@@ -692,4 +694,186 @@ func handlerCalledWithOn(e an.EffCall, want ssa.Value, p *an.Path) bool {
 		return false
 	}
 	return an.ResolveOnPath(e.Resolve(call.Call.Args[0]), p) == want
+}
+
+// checkEventPoolOrder (C19.H2): event subscribers, too, run in registration order and a false result stops the later ones (the
+// session's own subscribers — the initiator's start(), the disconnect teardown — share the lists with the application's):
+// every update of EventHandlerPool.pool appends one handler at the end of the event's list (or creates the empty list), and
+// Trigger walks the list front to back and returns at the first false.
+func checkEventPoolOrder(c *core.Ctx, rule string) {
+	checkEventPoolUpdates(c, rule)
+	tr := c.Func("utils", "EventHandlerPool.Trigger")
+	if !c.Anchor("event pool trigger", tr != nil, "EventHandlerPool.Trigger", posOf(tr)) {
+		return
+	}
+	// Trigger: ascending walk, stop at the first false
+	rc := findRangeCallNoArgs(tr)
+	ob := c.Ob(rule, "EventHandlerPool.Trigger", "subscribers are called front to back until one returns false", tr.Pos())
+	switch {
+	case rc == nil:
+		ob.Fail("no loop calling the subscribers found")
+	case !rc.Ascending || !flowsStraightTo(rc.TrueNext, rc.Head) || rc.FalseExit == nil || !leadsToReturnWithoutCalls(rc.FalseExit):
+		ob.Fail("Trigger does not walk the event's subscribers in ascending order, continue after true and stop at the first false")
+	default:
+		ob.Ok("ascending; true → next; false → return")
+	}
+}
+
+// checkEventPoolUpdates: every update of EventHandlerPool.pool appends one handler at the end of the event's list.
+func checkEventPoolUpdates(c *core.Ctx, rule string) {
+	pf := c.Field("utils", "EventHandlerPool", "pool")
+	if !c.Anchor("event pool", pf != nil, "EventHandlerPool.pool", token.NoPos) {
+		return
+	}
+	isPool := func(v ssa.Value) bool {
+		f, _ := an.LoadedField(v)
+		return f == pf
+	}
+	var appendsAtEnd func(v ssa.Value, key ssa.Value, depth int) bool
+	appendsAtEnd = func(v ssa.Value, key ssa.Value, depth int) bool {
+		if depth > 3 {
+			return false
+		}
+		switch x := v.(type) {
+		case *ssa.Slice:
+			if al, isAl := x.X.(*ssa.Alloc); isAl {
+				if arr, isArr := an.Deref(al.Type()).Underlying().(*types.Array); isArr && arr.Len() == 0 {
+					return true // the empty list of a new event
+				}
+			}
+		case *ssa.MakeSlice:
+			k, isK := an.ConstInt(x.Len)
+			return isK && k == 0
+		case *ssa.Call:
+			if b, isB := x.Call.Value.(*ssa.Builtin); isB && b.Name() == "append" && len(x.Call.Args) == 2 {
+				elems, isLit := an.SliceElems(x.Call.Args[1])
+				if !isLit || len(elems) != 1 {
+					return false
+				}
+				switch base := x.Call.Args[0].(type) {
+				case *ssa.Lookup:
+					return isPool(base.X) && (key == nil || base.Index == key)
+				case *ssa.Parameter:
+					return true // a helper's parameter: the list it was given (checked at the call)
+				case *ssa.Extract:
+					if lk, isLk := base.Tuple.(*ssa.Lookup); isLk {
+						return isPool(lk.X)
+					}
+				}
+				return false
+			}
+			// a helper of the package that returns the list with the handler appended
+			if cal := an.StaticCallee(&x.Call); cal != nil && cal.Pkg != nil && !an.IsKnown(cal) && len(cal.Blocks) > 0 {
+				ps, _ := an.EnumPaths(cal, 16)
+				n := 0
+				for _, p := range ps {
+					if p.Return == nil || len(p.ResVals) != 1 {
+						continue
+					}
+					n++
+					r := an.ResolveOnPath(p.ResVals[0], p)
+					if isOrderedCopyPlusOne(r, p) {
+						continue
+					}
+					if !appendsAtEnd(r, nil, depth+1) {
+						return false
+					}
+				}
+				return n > 0
+			}
+		}
+		return false
+	}
+	n := 0
+	for _, fn := range pkgFuncs(c.SSAPkg("utils")) {
+		an.AllInstrs(fn, func(in ssa.Instruction) {
+			mu, ok := in.(*ssa.MapUpdate)
+			if !ok || !isPool(mu.Map) {
+				return
+			}
+			n++
+			c.Check(appendsAtEnd(mu.Value, mu.Key, 0), rule, an.NameOf(fn), "an event's subscriber list only grows at its end", mu.Pos(), "pool[e] = append(pool[e], handle)",
+				"pool["+an.Render(mu.Key)+"] is set to "+an.Render(mu.Value)+": subscribers no longer run in the order they were registered (a later subscriber that returns false then silences the earlier ones — among them the session's own)")
+		})
+	}
+	c.Check(n >= 1, rule, "EventHandlerPool", "updates of the event map found", token.NoPos, fmt.Sprint(n), "no update of EventHandlerPool.pool found")
+}
+
+// isOrderedCopyPlusOne: v is append(C, h) with C an ordered copy of a parameter of the helper (copy-on-write registration).
+func isOrderedCopyPlusOne(v ssa.Value, p *an.Path) bool {
+	call, ok := v.(*ssa.Call)
+	if !ok {
+		return false
+	}
+	b, isB := call.Call.Value.(*ssa.Builtin)
+	if !isB || b.Name() != "append" || len(call.Call.Args) != 2 {
+		return false
+	}
+	if elems, isLit := an.SliceElems(call.Call.Args[1]); !isLit || len(elems) != 1 {
+		return false
+	}
+	base := an.ResolveOnPath(call.Call.Args[0], p)
+	fn := call.Parent()
+	for _, prm := range fn.Params {
+		if _, isSl := prm.Type().Underlying().(*types.Slice); isSl && isOrderedCopy(base, an.Render(prm), p) {
+			return true
+		}
+	}
+	return false
+}
+
+// findRangeCallNoArgs is findRangeCall for a loop whose body calls the ranged-over element itself with no arguments.
+func findRangeCallNoArgs(fn *ssa.Function) *rangeCall {
+	var out *rangeCall
+	an.AllInstrs(fn, func(in ssa.Instruction) {
+		call, ok := in.(*ssa.Call)
+		if !ok || call.Call.IsInvoke() || an.StaticCallee(&call.Call) != nil || len(call.Call.Args) != 0 {
+			return
+		}
+		u, ok := call.Call.Value.(*ssa.UnOp)
+		if !ok {
+			return
+		}
+		ia, ok := u.X.(*ssa.IndexAddr)
+		if !ok {
+			return
+		}
+		phi := rangeIndexPhi(ia.Index)
+		rc := &rangeCall{Over: ia.X, Call: call, Ascending: phi != nil}
+		if phi != nil {
+			rc.Head = phi.Block()
+		}
+		for _, ref := range *call.Referrers() {
+			if iff, ok := ref.(*ssa.If); ok {
+				rc.TrueNext = iff.Block().Succs[0]
+				rc.FalseExit = iff.Block().Succs[1]
+			}
+		}
+		out = rc
+	})
+	return out
+}
+
+
+// flowsStraightTo: control goes from b to head without a choice and without calling anything (b is head, or the increment
+// block of a counted loop in front of it).
+func flowsStraightTo(b, head *ssa.BasicBlock) bool {
+	if head == nil {
+		return false
+	}
+	for i := 0; i < 4 && b != nil; i++ {
+		if b == head {
+			return true
+		}
+		for _, in := range b.Instrs {
+			if _, isCall := in.(*ssa.Call); isCall {
+				return false
+			}
+		}
+		if len(b.Succs) != 1 {
+			return false
+		}
+		b = b.Succs[0]
+	}
+	return false
 }
